@@ -4,6 +4,7 @@ import (
 	"bytes"
 	"fmt"
 	"math/rand"
+	"strings"
 	"sync/atomic"
 	"time"
 
@@ -701,6 +702,75 @@ func c06Case(run *evid.Run, i int, j *Journal) {
 		run.NonTrivial("relabelled/" + h.Codec)
 	}
 
+	// (h) the offered log brings its OWN codec (a peer controls the log object it hands over): its pre-sign step
+	// answers with a genuinely signed entry whenever it is shown that entry's signature. The destination must check
+	// signatures with its own codec and refuse a forged payload carrying a replayed key / signature / identity
+	if i%3 == 1 && len(appended) > 0 && h.Codec != "pb" {
+		genuine := appended[rng.Intn(len(appended))]
+		forged := genuine.Copy()
+		forged.SetPayload([]byte("forged: " + string(genuine.GetPayload())))
+		forged.SetHash(foreignCid(fmt.Sprintf("forged-%d-%d", run.Seed, i)))
+		forged.SetNext(nil)
+		forged.SetRefs(nil)
+		lo := x.W.LogOpts(x.W.LogID)
+		lo.IO = &replayIO{IO: x.W.IOv(), signed: genuine}
+		lo.Entries = entry.NewOrderedMapFromEntries([]iface.IPFSLogEntry{forged})
+		lo.Heads = []iface.IPFSLogEntry{forged}
+		if src, err := ipfslog.NewLog(x.W.Store.API(), x.W.Idents[0], lo); err == nil {
+			dst := x.W.NewLog(0)
+			j.Log(map[string]any{"case": i, "codec": h.Codec, "phase": "peer-with-its-own-codec"})
+			_, jerr := dst.Join(src, -1)
+			run.Count("merges_from_a_log_with_a_hostile_codec", 1)
+			if _, in := dst.Get(forged.GetHash()); in || jerr == nil {
+				run.Violate("C06/invalid-admitted", det("codec", h.Codec, "kinds", "forged payload under a replayed signature, offered by a log whose codec answers the pre-sign step with the genuine entry"), wit("hostile codec"),
+					"a forged entry (payload changed, key / signature / identity of a genuine entry) was merged (err=%v): the signature was not checked over the entry's own content with the destination's codec", jerr)
+			}
+			run.NonTrivial("hostile-codec/" + h.Codec)
+		}
+	}
+
+	// (i) two replicas opened from ONE options value / one entries map, each with its own controller: what one of
+	// them appends must not get into the other without passing the other's controller
+	if i%3 == 2 {
+		pol := &policy{name: "deny-payload", denyPay: func(p []byte) bool { return bytes.HasPrefix(p, []byte("DENY")) }}
+		shared := x.W.LogOpts(x.W.LogID)
+		shared.AccessController = nil
+		if r0 := x.Logs[rng.Intn(h.Replicas)]; rng.Intn(2) == 0 && r0.Len() > 0 {
+			shared.Entries = r0.GetEntries()
+			shared.Heads = r0.Heads().Slice()
+		}
+		a, errA := ipfslog.NewLog(x.W.Store.API(), x.W.Idents[0], shared)
+		optsB := *shared // the same Entries map object (NewLog wrote its default back into the options), another controller
+		optsB.AccessController = pol
+		b, errB := ipfslog.NewLog(x.W.Store.API(), x.W.Idents[0], &optsB)
+		if errA == nil && errB == nil {
+			j.Log(map[string]any{"case": i, "codec": h.Codec, "phase": "replicas-from-one-options-value"})
+			before := hx.Observe(b)
+			_, e1 := a.Append(x.W.Ctx, []byte(fmt.Sprintf("DENY-shared-%d", i)), nil)
+			_, e2 := a.Append(x.W.Ctx, []byte(fmt.Sprintf("ok-shared-%d", i)), nil)
+			mid := hx.Observe(b)
+			_, jerr := b.Join(a, -1)
+			after := hx.Observe(b)
+			run.Count("replicas_opened_from_one_options_value", 1)
+			if e1 == nil && e2 == nil {
+				if df := obsEqual(before, mid); df != "" {
+					run.Violate("C06/not-atomic", det("codec", h.Codec, "sequence", "two replicas from one options value"), wit("shared options"), "appending to a replica changed another replica opened from the same options value before any merge: %s", df)
+				}
+				for _, v := range after.Values {
+					if e := after.Set[v]; e != nil && strings.HasPrefix(e.Payload, "DENY") {
+						run.Violate("C06/denied-admitted", det("codec", h.Codec, "policy", pol.name, "sequence", "two replicas from one options value"), wit("shared options"), "an entry the controller denies is in the log after a merge (returned %v) from a replica opened from the same options value", jerr)
+						break
+					}
+				}
+				if jerr != nil {
+					if df := obsEqual(mid, after); df != "" {
+						run.Violate("C06/not-atomic", det("codec", h.Codec, "sequence", "two replicas from one options value"), wit("shared options"), "refused merge changed the log: %s", df)
+					}
+				}
+			}
+		}
+	}
+
 	// (b') a log restored from storage with a restrictive controller still enforces it
 	for r, l := range x.Logs {
 		if l.Len() == 0 || i%2 != 0 {
@@ -810,4 +880,21 @@ func minInt(a, b int) int {
 		return a
 	}
 	return b
+}
+
+// replayIO is the codec of a hostile peer: it reads and writes like the codec it wraps, but its pre-sign step
+// answers with an entry that really was signed whenever it is shown an entry carrying that signature.
+type replayIO struct {
+	iface.IO
+	signed iface.IPFSLogEntry
+}
+
+func (r *replayIO) PreSign(e iface.IPFSLogEntry) (iface.IPFSLogEntry, error) {
+	if r.signed != nil && bytes.Equal(e.GetSig(), r.signed.GetSig()) {
+		return r.signed, nil
+	}
+	if ps, ok := r.IO.(iface.IOPreSign); ok {
+		return ps.PreSign(e)
+	}
+	return e, nil
 }
